@@ -50,7 +50,12 @@ class Boom(Exception):
 
 # The unexpected exception is raised with a VARIETY of classes: classes that the machinery itself catches somewhere
 # (IndexError around `args.pop(0)`, KeyError around caches, ...) are where a slip would swallow a resolver's exception.
-# (StopIteration is left out: Python itself rewrites it to RuntimeError inside coroutines and asyncio futures refuse it.)
+# StopIteration: Python rewrites it to RuntimeError inside coroutines (PEP 479) and asyncio futures refuse it: the harness accepts
+# the rewritten form as the same exception (`__cause__`) and rewrites it itself where an `async def` resolver would.
+class Fatal(BaseException):
+    """an unexpected exception that is not an `Exception` (like SystemExit / asyncio.CancelledError)"""
+
+
 class WithExtensions(Exception):
     """not a GraphQL error, but carries an `extensions` attribute like ResolverError does"""
     extensions = {"code": "X"}
@@ -72,6 +77,7 @@ def _library_unexpected():
 
 UNEXPECTED_CLASSES = (Boom, IndexError, KeyError, AttributeError, TypeError, ValueError, RuntimeError, LookupError,
                       ZeroDivisionError, AssertionError, OSError, NotImplementedError, WithExtensions,
+                      StopIteration, StopAsyncIteration, Fatal,
                       "lib0", "lib1", "lib2", "lib3", "lib4", "lib5", "lib6")
 
 CLASS_SALT = 0      # rotated by the checker so that every field position sees every class
@@ -773,7 +779,7 @@ class AsyncWorld(World):
             except Watchdog:
                 raise
             except BaseException as err:  # noqa
-                fut.set_exception(err)
+                _set_loop_exception(fut, err)
             return fut
         e = _Entry()
         e.path, e.stage, e.started = path, (1 if f["mode"] == "nested" else 2), True
@@ -812,11 +818,20 @@ class AsyncWorld(World):
             except Watchdog:
                 raise
             except BaseException as err:  # noqa
-                e.fut.set_exception(err)
+                _set_loop_exception(e.fut, err)
             else:
                 e.fut.set_result(r)
         drain(self.loop)
         return True
+
+
+def _set_loop_exception(fut, err):
+    """what an `async def` resolver raising `err` gives: StopIteration cannot travel through an asyncio Future (PEP 479)"""
+    if isinstance(err, StopIteration):
+        new = RuntimeError("coroutine raised StopIteration")
+        new.__cause__ = err
+        err = new
+    fut.set_exception(err)
 
 
 def drain(loop, limit=100000):
@@ -871,7 +886,8 @@ def canon_errors(errors):
 
 
 def exc_name(err):
-    if isinstance(err, Boom) or getattr(err, "_harness_unexpected", False):
+    if isinstance(err, Boom) or getattr(err, "_harness_unexpected", False) \
+            or getattr(getattr(err, "__cause__", None), "_harness_unexpected", False):
         return "Boom"
     if isinstance(err, RuntimeError):
         return "RuntimeError"
@@ -908,7 +924,7 @@ def run_blocking(case, generic=False, subclass=False):
                                         executor_cls=Executor if generic else BlockingExecutor)
         except Watchdog:
             return obs_of_result(w, status="hang")
-        except Exception as err:
+        except BaseException as err:  # noqa
             return obs_of_result(w, exc=err, status="failed")
     return obs_of_result(w, result=res, status="ok")
 
@@ -991,14 +1007,19 @@ def run_threadpool(case, schedule, runtime=None):
                 fut = process_graphql_query(schema, doc, context=w, root=w.root_value(), runtime=rt, executor_cls=Executor, validators=[])
             except Watchdog:
                 raise
-            except Exception as err:
+            except BaseException as err:  # noqa
                 return obs_of_result(w, exc=err, status="failed")
             if not isinstance(fut, Future):
                 return obs_of_result(w, status="not-a-future")
             while not fut.done() and w.queue:
                 w.sizes.append(len(w.queue))
                 w.choices.append(pick(schedule, steps, len(w.queue)))
-                w.complete(w.choices[-1])
+                try:
+                    w.complete(w.choices[-1])
+                except Watchdog:
+                    raise
+                except BaseException:  # noqa  -- escaped from a done-callback: on a real pool it kills the worker's callback chain
+                    pass
                 steps += 1
             if not fut.done():
                 return obs_of_result(w, status="pending", steps=steps)
@@ -1029,7 +1050,7 @@ def run_asyncio(case, schedule, runtime=None):
                 aw = process_graphql_query(schema, doc, context=w, root=w.root_value(), runtime=rt, executor_cls=Executor, validators=[])
             except Watchdog:
                 raise
-            except Exception as err:
+            except BaseException as err:  # noqa
                 return obs_of_result(w, exc=err, status="failed")
             if not asyncio.iscoroutine(aw) and not asyncio.isfuture(aw):
                 return obs_of_result(w, status="not-awaitable")
